@@ -325,6 +325,74 @@ def judge_unknown(items, checker, col=None):
 # ----------------------------------------------------------------- shards
 
 
+STAR_CONST_HEADER = [
+    "import collections",
+    'NT0 = collections.namedtuple("NT0", [])()',
+    'NT1 = collections.namedtuple("NT1", ["p"])(1)',
+    'NT2 = collections.namedtuple("NT2", ["p", "q"])(1, 2)',
+    "class TSub(tuple):",
+    "    pass",
+    "TS2 = TSub((1, 2))",
+    "class LSub(list):",
+    "    pass",
+    "LS1 = LSub([1])",
+    "T3 = (1, 2, 3)",
+    "FS1 = frozenset({1})",
+]
+STAR_CONSTS = ["NT0", "NT1", "NT2", "TS2", "LS1", "T3", "FS1"]
+
+
+def star_const_calls(params):
+    names = [nm for k, nm, _ in params if k in ("po", "pk", "ko")]
+    for npos in range(0, 3):
+        pos = [str(i + 1) for i in range(npos)]
+        for c in STAR_CONSTS:
+            for kw in [None] + names[:2] + ["zz"]:
+                args = pos + ["*" + c] + ([f"{kw}=9"] if kw else [])
+                yield ", ".join(args), "star-constant:" + c + ("+pos" if npos else "") + ("+kw" if kw else "")
+
+
+def judge_star_constants(items, checker, col=None):
+    """A star argument that is a module-level constant of known length whose class is a subclass of tuple / list
+    (namedtuple instances, user subclasses), a plain tuple or a frozenset: it supplies exactly len(constant) positionals."""
+    lines = list(STAR_CONST_HEADER)
+    lmap = {}
+    for i, (params, calls) in enumerate(items):
+        lines.append(header(params, f"g{i}"))
+    for i, (params, calls) in enumerate(items):
+        lines.append(f"def outer{i}():")
+        for j, (c, _) in enumerate(calls):
+            lines.append(f"    g{i}({c})")
+            lmap[len(lines)] = (i, j)
+    res = sut.check_source("\n".join(lines) + "\n", checker=checker)
+    if res.raised is not None:
+        raise res.raised
+    diagnosed = {d.lineno: d.description for d in res.diags if d.lineno in lmap and d.code == "incompatible_call"}
+    ns = {}
+    exec("\n".join(STAR_CONST_HEADER), ns)
+    fails = []
+    for line, (i, j) in lmap.items():
+        params, calls = items[i]
+        call, feat = calls[j]
+        fn = make_fn(params)
+        try:
+            eval(f"f({call})", dict(ns, f=fn))
+            ok = True
+        except TypeError:
+            ok = False
+        diag = line in diagnosed
+        if col is not None:
+            col.case(nontrivial_id=(header(params), call, "star-constant"), label=["route:star-constant", "agree" if diag == (not ok) else ("FP" if diag else "FN")])
+        if diag == (not ok):
+            continue
+        kind = "FP" if diag else "FN"
+        detail = skeleton(diagnosed[line]) if diag else f"sig={kinds_key(params)}|call={feat.split('+')[0]}"
+        fails.append((f"{kind}|star-constant|{detail}",
+                      f"{header(params)}; f({call}) with {call.split('*')[1].split(',')[0]} a module-level constant: CPython "
+                      f"{'binds' if ok else 'raises TypeError'}, pyanalyze {'reports ' + diagnosed[line] if diag else 'reports nothing'}", params, call))
+    return fails
+
+
 METHOD_ROUTES = ["inst.m", "subinst.m", "inst.sm", "subinst.sm", "Sub.sm", "subinst.cm", "Sub.cm", "SUBINST.sm", "SUBINST.m", "self.sm-in-sub"]
 
 
@@ -396,6 +464,7 @@ def shards(tier, seed):
     out += [{"mode": "sampled", "index": i, "examples": 25 if tier == "quick" else 600} for i in range(n)]
     out += [{"mode": "unknown", "index": i, "of": n, "bound": 3 if tier == "quick" else 4} for i in range(n)]
     out += [{"mode": "methods", "index": i, "of": 8, "bound": 2 if tier == "quick" else 3} for i in range(8)]
+    out += [{"mode": "star-constants", "index": i, "of": 4, "bound": 3 if tier == "quick" else 4} for i in range(4)]
     return out
 
 
@@ -431,6 +500,16 @@ def run_shard(spec):
         col.extra["signatures_enumerated"] = len(mine)
         if mine:
             col.sample({"header": header(mine[len(mine) // 2]), "call": "f(" + next(iter(call_shapes(mine[len(mine) // 2])))[0] + ")"})
+        return col.result()
+
+    if mode == "star-constants":
+        sigs = list(signatures(spec["bound"]))
+        mine = sigs[spec["index"]::spec["of"]]
+        for k in range(0, len(mine), 6):
+            batch = [(p, list(star_const_calls(p))) for p in mine[k:k + 6]]
+            _report(col, judge_star_constants(batch, checker, col), {"star_constants": True})
+            if col.out_of_time():
+                break
         return col.result()
 
     if mode == "methods":
@@ -500,7 +579,10 @@ def replay_all(case):
             if c == case["call"]:
                 feat = f
                 break
-        fails = (judge_methods if case.get("methods") else judge)([(params, [(case["call"], feat)])], checker)
+        if case.get("star_constants"):
+            fails = judge_star_constants([(params, [(case["call"], "star-constant:?")])], checker)
+        else:
+            fails = (judge_methods if case.get("methods") else judge)([(params, [(case["call"], feat)])], checker)
     return [{"key": k, "what": w, "case": case} for k, w, _, _ in fails]
 
 
